@@ -2,6 +2,6 @@
 # runs the quick check of every claimed property sequentially; prints exit code and wall time
 cd "$(dirname "$0")/.."
 for p in $(python3 -c "import json;print(' '.join(c['property_id'] for c in json.load(open('MANIFEST.json'))['checks']))"); do
-  s=$(date +%s); timeout 3600 bin/check $p --tier ${1:-quick} > /tmp/sweep_$p.log 2>&1; rc=$?; e=$(date +%s)
-  echo "$p rc=$rc wall=$((e-s))s $(grep -c '^VIOLATION' /tmp/sweep_$p.log) violations $(grep -c '^KNOWN-FINDING' /tmp/sweep_$p.log) known $(grep -c '^INCONCLUSIVE' /tmp/sweep_$p.log) inconclusive"
+  s=$(date +%s); timeout 3600 bin/check $p --tier ${1:-quick} > /tmp/sweep_${1:-quick}_$p.log 2>&1; rc=$?; e=$(date +%s)
+  echo "$p rc=$rc wall=$((e-s))s $(grep -c '^VIOLATION' /tmp/sweep_${1:-quick}_$p.log) violations $(grep -c '^KNOWN-FINDING' /tmp/sweep_${1:-quick}_$p.log) known $(grep -c '^INCONCLUSIVE' /tmp/sweep_${1:-quick}_$p.log) inconclusive"
 done
